@@ -66,8 +66,9 @@ def r1_fraction_value(rep, ctx):
             continue
         v = _single_return(fn)
         other = fn.params[1]
-        ok = isinstance(v, ast.Compare) and len(v.ops) == 1 and type(v.ops[0]) is opcls and ast.unparse(v.left) == "float(self)" and ast.unparse(v.comparators[0]) == "float(%s)" % other
-        rep.check(ok, "C18.R1", "FractionValue.%s" % d, "%s compares float(self) %s float(other)" % (d, ast.unparse(v.ops[0]) if isinstance(v, ast.Compare) else ""),
+        want = ("op", "cmp:" + opcls.__name__, (("call", ("name", "float"), (("self",),), ()), ("call", ("name", "float"), (("param", 1, other),), ())))
+        ok = v is not None and Resolver(m, fn).term(v) == want
+        rep.check(ok, "C18.R1", "FractionValue.%s" % d, "%s compares float(self) %s float(other)" % (d, {ast.Lt: "<", ast.LtE: "<=", ast.Gt: ">", ast.GtE: ">="}[opcls]),
                   "FractionValue.%s returns `%s`, expected float(self) %s float(other)" % (d, ast.unparse(v) if v is not None else None, {ast.Lt: "<", ast.LtE: "<=", ast.Gt: ">", ast.GtE: ">="}[opcls]), fn=fn)
     cp = m.own_method("FractionValue", "__copy__")
     v = _single_return(cp) if cp else None
